@@ -931,7 +931,19 @@ def symex(body, x, depth=0):
                 return symex(body, {"l": sp["l"], "p": list(sp["p"]) + proj}, depth + 1)
     if len(ds) == 1 and ds[0][0] == "call" and not proj:
         t = ds[0][2]
+        nm = callee_name(t) or ""
+        # unwrap / expect of an Option / Result all of whose definitions are literals: the payload of the Some / Ok ones
+        if re.search(r"(Option|Result)::(unwrap|expect|unwrap_unchecked)$", nm) and t["ops"] and t["ops"][0].get("k") in ("move", "copy") and not t["ops"][0]["pl"]["p"]:
+            want = "Some" if "Option" in nm else "Ok"
+            lit = body._variant_literal_ops(t["ops"][0]["pl"]["l"], [{"dc": want}, {"f": 0}])
+            if lit is not None and len(lit[0]) == 1:
+                return symex(body, lit[0][0], depth + 1)
         return ("call", callee_resolved(t) or "?", [symex(body, o, depth + 1) for o in t["ops"]])
+    # payload of an enum all of whose definitions are literals (what flat.py's expansion of map / and_then leaves)
+    lit = body._variant_literal_ops(pl["l"], proj)
+    if lit is not None and len(lit[0]) == 1 and lit[0][0].get("k") in ("move", "copy"):
+        o = lit[0][0]
+        return symex(body, {"l": o["pl"]["l"], "p": list(o["pl"]["p"]) + lit[1]}, depth + 1)
     fields = place_fields(pl)
     downs = [p["dc"] for p in pl["p"] if isinstance(p, dict) and "dc" in p]
     # continue through the base local for context (variant downcasts of the scrutinee)
